@@ -132,7 +132,7 @@ def c09_check(cls_name, algo, hc, margin=1e-9):
     return bad
 
 
-def make_algo(cls_name, hc, seed, calc_unc=False, method_SD="per"):
+def make_algo(cls_name, hc, seed, calc_unc=False, method_SD="per", nxseg=256):
     from pyoma2.algorithms import ssi as assi, plscf as aplscf
     from pyoma2.setup.single import SingleSetup
     from pyoma2.setup.multi import MultiSetup_PreGER
@@ -143,7 +143,7 @@ def make_algo(cls_name, hc, seed, calc_unc=False, method_SD="per"):
         if calc_unc:
             kw["method"] = "cov_mm"
     else:
-        kw = dict(ordmax=10, nxseg=256, method_SD=method_SD, hc=hc)
+        kw = dict(ordmax=10, nxseg=nxseg, method_SD=method_SD, hc=hc)
         cls = getattr(aplscf, cls_name)
     algo = cls(name="a", **kw)
     if cls_name.endswith("_MS"):
@@ -166,20 +166,23 @@ def c09_run(inp):
             m[k] = v
     sets = [m, base, dict(base, mpd_lim=0.05), dict(base, mpc_lim=0.95, conj=False), dict(base, xi_max=0.015),
             dict(base, mpc_lim=0.95, mpd_lim=0.6, cov_max=5e-3), dict(base, mpc_lim=0.99, mpd_lim=1.5, cov_max=10.0),
-            dict(base, mpc_lim=0.0, mpd_lim=0.02, cov_max=10.0), dict(base, xi_max=0.012, mpc_lim=0.0, mpd_lim=1.5, cov_max=10.0)]
+            dict(base, mpc_lim=0.0, mpd_lim=0.02, cov_max=10.0), dict(base, xi_max=0.012, mpc_lim=0.0, mpd_lim=1.5, cov_max=10.0),
+            # the ends of the ranges: no damping limit, no shape limits (negative damping can only be removed by the damping step itself;
+            # with the correlogram estimator and short segments the window correction produces such poles)
+            dict(base, xi_max=1.0, mpc_lim=0.0, mpd_lim=10.0, cov_max=10.0, conj=False)]
     found = []
     tried = 0
     for hc in sets:
         for calc_unc in ([False, True] if cls_name == "SSIdat" else [False]):
-            for method_SD in (["per", "cor"] if cls_name.startswith("pLSCF") else ["per"]):
+            for method_SD, nxseg in ([("per", 256), ("cor", 256), ("cor", 64)] if cls_name.startswith("pLSCF") else [("per", 256)]):
                 tried += 1
                 try:
-                    algo = make_algo(cls_name, hc, inp.get("seed", 0), calc_unc, method_SD)
+                    algo = make_algo(cls_name, hc, inp.get("seed", 0), calc_unc, method_SD, nxseg)
                     bad = c09_check(cls_name, algo, hc)
                 except Exception as e:       # noqa: BLE001
                     bad = [f"run raised {type(e).__name__}: {e}"]
                 if bad:
-                    found.append({"hc": hc, "calc_unc": calc_unc, "method_SD": method_SD, "n": len(bad), "first": bad[:3]})
+                    found.append({"hc": hc, "calc_unc": calc_unc, "method_SD": method_SD, "nxseg": nxseg, "n": len(bad), "first": bad[:3]})
         if found:
             break
     if found:
@@ -833,6 +836,13 @@ def c18_indicators(inp):
                 ref = np.array([[mac_ref(xc, ac) for ac in np.atleast_2d(aa.T)] for xc in np.atleast_2d(xx.T)])
                 if Mm.shape != ref.shape or not np.allclose(Mm, ref, atol=1e-9) or not np.allclose(np.atleast_2d(np.asarray(gen.MAC(aa, xx), dtype=float)), Mm.T, atol=1e-9):
                     bad.append(f"MAC ({what}): {np.round(Mm, 6).tolist()} instead of {np.round(ref, 6).tolist()} (or not symmetric up to transposition)")
+            # shapes whose real and imaginary parts are exactly orthogonal (Re.Im == 0.0) without either being zero
+            for sh in (np.array([1, 1j, 0]), np.array([1 + 1j, 1 - 1j]), np.array([1, 0.5j, 0, -0.25j]), np.array([2.0, 0, 3j])):
+                ref_ = 1 - abs(np.sum(sh * sh)) ** 2 / np.sum(np.abs(sh) ** 2) ** 2
+                got_ = float(gen.MCF(sh)[0])
+                both = np.column_stack([sh, (0.7 - 0.2j) * sh])
+                if abs(got_ - ref_) > 1e-12 or not np.allclose(np.asarray(gen.MCF(both), dtype=float), [ref_, ref_], atol=1e-12):
+                    bad.append(f"MCF of {sh.tolist()} (Re.Im = 0 exactly) is {got_}, independent value {ref_:.6f} (per column: {np.asarray(gen.MCF(both), dtype=float).tolist()})")
             mcf = float(gen.MCF(x)[0])
             if not (-1e-12 <= mcf <= 1 + 1e-12) or abs(float(gen.MCF(cfac * x)[0]) - mcf) > 1e-8 or abs(float(gen.MCF(cfac * r)[0])) > 1e-9:
                 bad.append(f"MCF range/invariance/collinear fails: {mcf}, {float(gen.MCF(cfac * x)[0])}, {float(gen.MCF(cfac * r)[0])}")
@@ -965,16 +975,64 @@ def c20_plots(inp):
     Fn, Xi, Phi, _ = crafted_tables(6, 7, 2, 1)
     Lab = (rng.rand(6, 7) < 0.5).astype(int)
     res = types.SimpleNamespace(Fn_poles=Fn, Xi_poles=Xi, Phi_poles=Phi, Lab=Lab, Fn_poles_cov=None, S_val=Sv, freq=fr)
-    for cls, meths in ((assi.SSIcov, ("plot_stab", "plot_cluster")), (aplscf.pLSCF, ("plot_stab", "plot_cluster")), (afdd.FDD, ("plot_CMIF",))):
+    # rows that hold retained poles but no stable one, an empty row, a fully stable row: the tables must reach the diagram functions as stored
+    Lab[1, :] = 0
+    Lab[2, :] = np.where(np.isnan(Fn[2, :]), 0, 1)
+    res.Fn_poles_cov = np.abs(rng.randn(6, 7)) * 0.01
+    import inspect
+    for cls, mod, meths in ((assi.SSIcov, assi, ("plot_stab", "plot_cluster")), (aplscf.pLSCF, aplscf, ("plot_stab", "plot_cluster")), (afdd.FDD, afdd, ("plot_CMIF",))):
         for m in meths:
-            try:
-                o = cls(name="a", br=4, ordmax=6) if cls is assi.SSIcov else (cls(name="a", ordmax=7) if cls is aplscf.pLSCF else cls(name="a"))
-                o.result = res
-                fig, ax = getattr(o, m)()
-                plt.close(fig)
-            except Exception as e:      # noqa: BLE001
-                return {"reproduced": True, "detail": f"{cls.__name__}.{m}() raised {type(e).__name__}: {e}"}
-    return {"reproduced": False, "detail": "stabilisation / cluster / singular-value diagrams draw exactly the expected markers and curves on 40 random tables; class methods plot"}
+            target = {"plot_stab": "stab_plot", "plot_cluster": "cluster_plot", "plot_CMIF": "CMIF_plot"}[m]
+            for kw in ({}, {"freqlim": (0.5, 9.0)}) + (({"hide_poles": False}, {"hide_poles": False, "freqlim": (1.0, 5.0)}) if m != "plot_CMIF" else ()):
+                seen, real = {}, getattr(mod.plot, target)
+
+                def spy(*a, _real=real, **k):
+                    ba = inspect.signature(_real).bind(*a, **k)
+                    ba.apply_defaults()
+                    seen.update(ba.arguments)
+                    return _real(*a, **k)
+                setattr(mod.plot, target, spy)
+                try:
+                    o = cls(name="a", br=4, ordmax=6) if cls is assi.SSIcov else (cls(name="a", ordmax=7) if cls is aplscf.pLSCF else cls(name="a"))
+                    o.result = res
+                    fig, ax = getattr(o, m)(**kw)
+                except Exception as e:      # noqa: BLE001
+                    return {"reproduced": True, "detail": f"{cls.__name__}.{m}({kw}) raised {type(e).__name__}: {e}"}
+                finally:
+                    setattr(mod.plot, target, real)
+                ctx = f"{cls.__name__}.{m}({kw})"
+                plt.close("all")            # (the artists stay readable after the figure is closed)
+                if not seen:
+                    return {"reproduced": True, "detail": f"{ctx} never called plot.{target}"}
+                # what counts is what is DRAWN (a method may legitimately trim empty rows before calling the diagram function)
+                hide = bool(kw.get("hide_poles", True))
+                n0_, n1_ = Fn.shape
+                if target == "stab_plot":
+                    step_ = getattr(o.run_params, "step", 1) or 1
+                    w_st = Counter((round(float(Fn[r, c_]), 9), float(c_ * step_)) for r in range(n0_) for c_ in range(n1_) if Lab[r, c_] == 1 and np.isfinite(Fn[r, c_]))
+                    w_un = Counter((round(float(Fn[r, c_]), 9), float(c_ * step_)) for r in range(n0_) for c_ in range(n1_) if Lab[r, c_] == 0 and np.isfinite(Fn[r, c_]))
+                elif target == "cluster_plot":
+                    w_st = Counter((round(float(Fn[r, c_]), 9), round(float(Xi[r, c_]), 9)) for r in range(n0_) for c_ in range(n1_) if Lab[r, c_] == 1 and np.isfinite(Fn[r, c_]))
+                    w_un = Counter((round(float(Fn[r, c_]), 9), round(float(Xi[r, c_]), 9)) for r in range(n0_) for c_ in range(n1_) if Lab[r, c_] == 0 and np.isfinite(Fn[r, c_]))
+                if target in ("stab_plot", "cluster_plot"):
+                    g_st, g_un = stable_unstable(ax)
+                    if g_st != w_st or (not hide and g_un != w_un) or (hide and sum(g_un.values())):
+                        return {"reproduced": True, "detail": f"{ctx}: the diagram does not show one stable marker per stable pole and "
+                                                              f"{'no' if hide else 'one'} unstable marker per other retained pole of the stored tables: stable {sum(g_st.values())}/{sum(w_st.values())}, "
+                                                              f"unstable {sum(g_un.values())}/{0 if hide else sum(w_un.values())}"}
+                else:
+                    for arg, tab in (("S_val", Sv), ("freq", fr)):
+                        if np.shape(seen[arg]) != np.shape(tab) or not np.array_equal(np.asarray(seen[arg], dtype=float), np.asarray(tab, dtype=float), equal_nan=True):
+                            return {"reproduced": True, "detail": f"{ctx}: plot.{target} did not receive the stored '{arg}' unchanged"}
+                if "hide_poles" in seen and bool(seen["hide_poles"]) != bool(kw.get("hide_poles", True)):
+                    return {"reproduced": True, "detail": f"{ctx}: hide_poles={seen['hide_poles']} reached plot.{target}"}
+                if seen.get("freqlim") != kw.get("freqlim"):
+                    return {"reproduced": True, "detail": f"{ctx}: freqlim={seen.get('freqlim')} reached plot.{target}"}
+                rp = o.run_params
+                for arg in ("step", "ordmax", "ordmin"):
+                    if arg in seen and hasattr(rp, arg) and seen[arg] != getattr(rp, arg):
+                        return {"reproduced": True, "detail": f"{ctx}: {arg}={seen[arg]} reached plot.{target}, run_params.{arg}={getattr(rp, arg)}"}
+    return {"reproduced": False, "detail": "stabilisation / cluster / singular-value diagrams draw exactly the expected markers and curves on 40 random tables; the classes' plot methods draw one marker per pole of the stored tables (hide_poles on and off, with and without freqlim)"}
 
 
 # ----------------------------------------------------------------------------------
@@ -1655,6 +1713,7 @@ def c19_geo(inp):
             d = {"sensors names": nm_tab.copy(), "points coordinates": pts.copy(), "mapping": mapping.copy()}
             d.update({k_: opt2[k_].copy() for k_ in present2})
             return d
+        want_map = None
         ok, r = call("check_on_geo2 accepts a valid table set (any subset of optional sheets)", gen.check_on_geo2, fd2(), ref_ind)
         if ok is False:
             note("check_on_geo2 accepts a valid table set (any subset of optional sheets)", f"ValueError: {r} (sheets {present2})")
@@ -1674,8 +1733,9 @@ def c19_geo(inp):
             # mapping of a mode shape to the points
             phi = rng.randn(n).round(3)
             try:
-                dm = gen.dfphi_map_func(phi, sn, sm, cstrn=cs).to_numpy()
                 want = np.zeros((npts, 3))
+                want_map = (phi, want)
+                dm = gen.dfphi_map_func(phi, sn, sm, cstrn=cs).to_numpy()
                 val = dict(zip(flat, phi))
                 for p_ in range(npts):
                     for c_ in range(3):
@@ -1728,6 +1788,12 @@ def c19_geo(inp):
                         note("def_geo2 (documented argument forms): names", f"{form}")
                     if "sensors lines" in present2 and not np.array_equal(np.asarray(g.sens_lines), lines2.to_numpy() - 1):
                         note("def_geo2 (documented argument forms): lines zero-based", f"{form}")
+                    if want_map is not None:
+                        # the geometry the setup HOLDS maps a shape as the checked tables do (constraint columns by sensor name)
+                        dm2 = gen.dfphi_map_func(want_map[0], g.sens_names, g.sens_map, cstrn=g.cstrn).to_numpy()
+                        if not np.allclose(dm2, want_map[1], atol=1e-12):
+                            note("def_geo2 (documented argument forms): the stored geometry maps a shape as the checked tables do",
+                                 f"{form}: constraint columns {None if cstr_tab is None else list(cstr_tab.columns)}, names {flat}: got {np.round(dm2, 3).tolist()}, want {np.round(want_map[1], 3).tolist()}")
                 except Exception as e:      # noqa: BLE001
                     note(f"def_geo2 accepts the documented argument forms (names as {form}, tables, line arrays)", f"{type(e).__name__}: {e}")
     fl = [{"claim": k, "detail": str(v)[:400]} for k, v in sorted(fails.items())]
@@ -2401,6 +2467,11 @@ def c16_handover(inp):
             freqs[j + 1], orders[j + 1] = freqs[j], orders[j]
             order_idx = np.argsort(freqs, kind="stable")
             freqs, orders = [freqs[i] for i in order_idx], [orders[i] for i in order_idx]
+        if n >= 3 and trial % 4 == 1:          # lowest and highest pick at the same order, another order in between
+            orders[-1] = orders[0]
+            orders[1] = orders[0] + 1
+        if n >= 2 and trial % 8 == 3:          # every pick at one order
+            orders = [orders[0]] * n
         for name, mod, clsname, fn_name, res in (("SSIcov", assi, "SSIcov", "SSI_mpe", SSIResult), ("pLSCF", aplscf, "pLSCF", "pLSCF_mpe", pLSCFResult)):
             seen = {}
             kern = getattr(mod, "ssi" if name == "SSIcov" else "plscf")
@@ -2427,8 +2498,11 @@ def c16_handover(inp):
                 return {"reproduced": True, "detail": f"{name}.mpe_from_plot never reached the extraction routine"}
             got_f = list(seen["a"][0]) if seen["a"] else list(seen["k"].get("sel_freq", seen["k"].get("freq_ref", [])))
             got_o = seen["a"][4] if len(seen["a"]) > 4 else seen["k"].get("order")
-            if got_f != list(freqs) or list(got_o) != list(orders):
-                return {"reproduced": True, "detail": f"{name}.mpe_from_plot: the dialog handed over frequencies {freqs} with orders {orders}, the extraction routine received {got_f} with {list(got_o)}"}
+            got_ol = list(got_o) if isinstance(got_o, (list, tuple, np.ndarray)) else got_o
+            if isinstance(got_ol, (int, np.integer)) and orders and all(o == int(got_ol) for o in orders):
+                got_ol = list(orders)          # one order for every pick handed over as a single number: the same pairs
+            if got_f != list(freqs) or got_ol != list(orders):
+                return {"reproduced": True, "detail": f"{name}.mpe_from_plot: the dialog handed over frequencies {freqs} with orders {orders}, the extraction routine received {got_f} with {got_ol!r}"}
     return {"reproduced": False, "detail": "mpe_from_plot passes the dialog's frequencies and per-mode orders unchanged and paired (SSI, pLSCF; duplicates included)"}
 
 
@@ -2448,9 +2522,16 @@ def c02_results(inp):
         setups, off = [], nref
         names_per_setup = [rng.permutation(["zeta", "Alpha"]).tolist() if trial % 2 else ["zeta", "Alpha"] for _ in range(S_)]
         fn_all, xi_all = [[], []], [[], []]
+        ref_lists, expect_rows = [], list(range(nref))
         for s_ in range(S_):
             rows = list(range(nref)) + list(range(off, off + nrov[s_]))
             off += nrov[s_]
+            if trial % 3:
+                # the setup's own channel order: references anywhere, listed so that position j of every list is the same physical sensor
+                # (the lists are then in general NOT ascending)
+                rows = [rows[i] for i in rng.permutation(len(rows))]
+            ref_lists.append([rows.index(j) for j in range(nref)])
+            expect_rows += [r_ for r_ in rows if r_ >= nref]           # roving sensors in the setup's own channel order
             st = SingleSetup(np.zeros((50, len(rows))), 10.0)
             a0 = SSIcov(name=names_per_setup[s_][0] + str(s_), br=3, ordmax=6)       # position 0: always the SSIcov system
             a1 = FSDD(name=names_per_setup[s_][1] + str(s_), nxseg=16)               # position 1: always the FSDD system
@@ -2464,7 +2545,7 @@ def c02_results(inp):
             st.add_algorithms(a0, a1)
             setups.append(st)
         try:
-            ms = MultiSetup_PoSER(ref_ind=[list(range(nref))] * S_, single_setups=setups, names=["first", "second"])
+            ms = MultiSetup_PoSER(ref_ind=[list(x) for x in ref_lists], single_setups=setups, names=["first", "second"])
             out = ms.merge_results()
         except Exception as e:      # noqa: BLE001
             return {"reproduced": True, "detail": f"merge_results raised {type(e).__name__}: {e} (names per setup {names_per_setup})"}
@@ -2474,8 +2555,9 @@ def c02_results(inp):
                     or not np.allclose(r.Fn_cov, np.std(fn_all[k], axis=0) / np.mean(fn_all[k], axis=0)):
                 return {"reproduced": True, "detail": f"merge_results: group '{key}' (algorithms at position {k} of every setup) does not hold the mean / population std-over-mean of that position's "
                                                       f"results (algorithm names per setup: {names_per_setup})"}
-            if r.Phi.shape != (ntot, nm[k]) or any(abs(_mac1(r.Phi[:, m_], G[k][:, m_]) - 1) > 1e-8 for m_ in range(nm[k])):
-                return {"reproduced": True, "detail": f"merge_results: group '{key}' merged shape is not the global shape of the algorithms at position {k} (names per setup: {names_per_setup})"}
+            if r.Phi.shape != (ntot, nm[k]) or any(abs(_mac1(r.Phi[:, m_], G[k][expect_rows, m_]) - 1) > 1e-8 for m_ in range(nm[k])):
+                return {"reproduced": True, "detail": f"merge_results: group '{key}' merged shape is not the global shape of the algorithms at position {k} (references in the listed order, "
+                                                      f"then each setup's roving sensors; reference lists {ref_lists}; names per setup: {names_per_setup})"}
     return {"reproduced": False, "detail": "merge_results groups by position whatever the algorithms are called; means, std/mean and merged shapes per group agree on 30 layouts"}
 
 
